@@ -3,6 +3,9 @@ package props
 import (
 	"fmt"
 	"github.com/AdguardTeam/urlfilter/filterlist"
+	"os"
+	"path/filepath"
+	"strconv"
 	"strings"
 
 	"github.com/AdguardTeam/urlfilter"
@@ -86,6 +89,21 @@ type c16Witness struct {
 // want.
 func c16Observe(c *core.Ctx, mask int, other string, want rules.CosmeticOption) (obs rules.CosmeticOption, ok bool) {
 	text := c16RuleText(c, mask)
+	// One rendering in eight is longer than the read buffer of a file-backed
+	// list: a long $denyallow list (of hosts that are not asked about) stands
+	// before the other modifiers, and the list is backed by a file.
+	long := c.Rng.Intn(8) == 0
+	if long {
+		var fill []string
+		for i := 0; i < 230+c.Rng.Intn(60); i++ {
+			fill = append(fill, "f"+strconv.Itoa(i)+".filler.example")
+		}
+		head, mods, has := strings.Cut(text, "$")
+		text = head + "$denyallow=" + strings.Join(fill, "|")
+		if has && mods != "" {
+			text += "," + mods
+		}
+	}
 	ok = true
 	// When the exception also matches the referrer and carries $urlblock,
 	// $document or $genericblock, it suppresses the (generic) blocking rule next
@@ -168,6 +186,21 @@ func c16Observe(c *core.Ctx, mask int, other string, want rules.CosmeticOption) 
 			&filterlist.StringRuleList{ID: 1, RulesText: util.Lines(cosLines)},
 		}); serr == nil {
 			storage = s
+		}
+	}
+	if long {
+		if dir, derr := os.MkdirTemp(filepath.Join(c.Env.VerifDir, ".work"), "c16f."); derr == nil {
+			defer os.RemoveAll(dir)
+			fn := filepath.Join(dir, "list.txt")
+			if os.WriteFile(fn, []byte(util.Lines(list)), 0o644) == nil {
+				if fl, ferr := filterlist.NewFileRuleList(0, fn, false); ferr == nil {
+					if fs, serr := filterlist.NewRuleStorage([]filterlist.RuleList{fl}); serr == nil {
+						storage = fs
+						defer fs.Close()
+						c.Event("file_backed_lists_with_a_rule_longer_than_4k", 1)
+					}
+				}
+			}
 		}
 	}
 	eng := urlfilter.NewEngine(storage)
